@@ -237,6 +237,7 @@ func (c *checkCtx) runContracts(cov map[string]interface{}) int {
 	if c.tier == "thorough" {
 		timeout = 60
 		all = true
+		ld.eng.reachAntecedents = true
 	}
 	var obls []*Obligation
 	var funcs []map[string]interface{}
@@ -337,7 +338,19 @@ func (c *checkCtx) runContracts(cov map[string]interface{}) int {
 	vacuous := 0
 	knownPrinted := map[string]bool{}
 	var knownMatched []string
+	reachChecked := 0
+	var unreachable []string
 	for _, ns := range sums {
+		if ns.Kind == "reach" {
+			// audit only (thorough tier): is the antecedent of an `A ==> B` clause reachable at some return?
+			// An unreachable antecedent is listed in the evidence; it is not a violation of the property.
+			reachChecked++
+			solverTime += ns.Time
+			if len(ns.Failed) > 0 || (ns.Discharged == 0 && len(ns.Unknown) > 0) {
+				unreachable = append(unreachable, strings.Replace(ns.Name, "#reach:", "#post:", 1))
+			}
+			continue
+		}
 		nOb++
 		byKind[ns.Kind]++
 		solverTime += ns.Time
@@ -410,7 +423,12 @@ func (c *checkCtx) runContracts(cov map[string]interface{}) int {
 	cov["samples"] = samples
 	cov["failed"] = failedNames
 	cov["known_findings_matched"] = knownMatched
-	cov["vacuity"] = map[string]interface{}{"cover_and_canary_obligations": byKind["cover"] + byKind["canary"], "vacuous": vacuous}
+	vac := map[string]interface{}{"cover_and_canary_obligations": byKind["cover"] + byKind["canary"], "vacuous": vacuous}
+	if c.tier == "thorough" {
+		vac["implication_antecedents_audited"] = reachChecked
+		vac["antecedents_not_shown_reachable"] = unreachable
+	}
+	cov["vacuity"] = vac
 	if len(failedNames) > 0 {
 		return 1
 	}
